@@ -655,7 +655,7 @@ package rapid
 //@   ensures [C09] 0 <= result0 && 0 <= result1 && result0 <= checks && result1 <= checks*10
 //@   ensures [C09] implies(result4 == nil && !result2, result0 == checks || result1 == checks*10)
 //@   ensures [C09] runs - old(runs) == result0 + result1 + ite(result4 != nil, 1, 0)
-//@   ensures [C02,C11] implies(result4 != nil, !isInvalidData(result4.data) && fresh(result4))
+//@   ensures [C01,C02,C11] implies(result4 != nil, !isInvalidData(result4.data) && fresh(result4))
 //@   ensures [C07] implies(result4 != nil, result3 == lastInit) && implies(result4 == nil, result3 == 0)
 //@   ensures [C09] implies(result2, result4 == nil)
 //@   modifies heap, drawn, runs, lastInit, lockmode, cancelled
@@ -923,8 +923,8 @@ package rapid
 
 //@ func genUintNBiased@reachall
 //@   given v (_ BitVec 64)
-//@   requires [C18] v <= max
-//@   ensures [C18] result0 == v
+//@   requires [C12,C18] v <= max
+//@   ensures [C12,C18] result0 == v
 //@   panics invalidData: true
 //@   modifies drawn
 //@   at genGeom#0 assume uint64(witnessN(v)) == result + 1
